@@ -92,6 +92,8 @@ func runC02() {
 		nShapes = 2600
 	}
 	nShapes = scaled(nShapes)
+	// the directed async-commit recovery family (profile full): both arrival orders of the CheckSecondaryLocks answers
+	asyncRecoveryFamily(rnd.Fork(), 4)
 	for n := 0; n < nShapes; n++ {
 		r := rnd.Fork()
 		s := genShape(r)
